@@ -371,4 +371,4 @@ Definition abs_entry (nm : list (name * Z)) (dl : list Z) (p : Z * dstate) : lis
   else match rassoc (fst p) nm with Some n => [(n, snd p)] | None => [] end.
 Definition abs_of (r : registry) (st : store) : sstate :=
   {| ss_ds := flat_map (abs_entry (r_names r) (r_deleted r)) (s_ds st); ss_clock := s_clock st |}.
-Definition abs (h : hub) : sstate := abs_of (h_mem h) (h_st h).
+Definition habs (h : hub) : sstate := abs_of (h_mem h) (h_st h).
